@@ -16,7 +16,7 @@ package syncer
 //   sentHigh  largest offset handed to the sender so far
 
 // ground facts about case folding (each is a closed instance of strings.EqualFold)
-//@ axiom brackets_are_not_publish_or_select: !rdbrestore.SpecEqualFold("multi", "publish") && !rdbrestore.SpecEqualFold("exec", "publish") && !rdbrestore.SpecEqualFold("multi", "select") && !rdbrestore.SpecEqualFold("exec", "select")
+//@ axiom brackets_are_not_publish_or_select: !keyspec.SpecEqualFold("multi", "publish") && !keyspec.SpecEqualFold("exec", "publish") && !keyspec.SpecEqualFold("multi", "select") && !keyspec.SpecEqualFold("exec", "select")
 
 //@ func isTransactionBracket
 //@   arith int
